@@ -431,7 +431,7 @@ class History:
             elif name == "df_restore":
                 if not self.saved:
                     raise Skip()
-                c = sorted(self.saved)[op["pick"] % len(self.saved)]
+                c = sorted(self.saved, key=lab)[op["pick"] % len(self.saved)]
                 vals = self.saved[c]
                 if len(vals) != n or n == 0:
                     raise Skip()
